@@ -58,3 +58,52 @@ def index_of(events, pred, start=0):
         if pred(events[i]):
             return i
     return -1
+
+
+def check_files_rules(ctx, rid):
+    """storage::check_files(fm, types) == every listed file exists, whatever its shape: a `for` loop with early `return false`,
+    or `types.iter().all(|t| ..is_file())`. Decided: (a) `true` only after EVERY listed type was tested, (b) a path that is not a
+    file gives `false`, (c) `false` ONLY when a file does not exist (or its path cannot be computed) — no size/content test."""
+    from ..flow import arg_origins, origins
+    from ..mir import try_edges
+    from ..util import assigns_const_to, call_true_false_edges, unreachable_without, where
+    from .guards import body_family, closure_users
+    from .c01 import shrinkers_in
+    prog = ctx.prog
+    cf = prog.must_body("acmed::storage::check_files")
+    fam = body_family(prog, cf.key)
+    tests = [(fb, c) for fb in fam for c in fb.calls if c.bb in fb.live_blocks() and (c.name or "").rsplit("::", 1)[-1] in ("is_file", "exists", "try_exists")]
+    ctx.floor(rid, "existence test (is_file) in check_files", len(tests), 1)
+    for fb, c in tests:
+        t_e, f_e = call_true_false_edges(fb, c)
+        falses = assigns_const_to(fb, 0, lambda k: k.get("bool") is False)
+        trues = assigns_const_to(fb, 0, lambda k: k.get("bool") is True)
+        ret = origins(fb, {"l": 0, "p": []})
+        direct = any(x.bb == c.bb for x in ret.calls) and "unop:Not" not in ret.via      # `_0 = path.is_file()`
+        path_err = [(t["bb"], tg) for g in fb.calls_to("acmed::storage::get_file_path") for t in try_edges(fb, [g.dest["l"]]) for tg in t["err"]]
+        # (c) false only when missing
+        okc, hit = unreachable_without(fb, falses, removed_edges=f_e + path_err)
+        ctx.require(rid, okc and (bool(f_e) or direct), where(fb, (hit or falses or [c.bb])[0]),
+                    "storage::check_files reports `missing` only when a file does not exist (no size/content criterion)", ["storage::check_files", "exists-only"])
+        # (b) not a file => false
+        if not direct:
+            for (sbb, tg) in f_e:
+                r = fb.reachable([tg], removed_nodes=falses)
+                ctx.require(rid, not (set(fb.return_blocks()) & r), where(fb, sbb), "a path that is not a file makes check_files answer false", ["check_files", "missing-file"])
+        if fb is cf:
+            # (a) loop form: `true` only on the end-of-iteration edge
+            nx = [x for x in cf.calls_to("core::iter::traits::iterator::Iterator::next")]
+            none_edges = [(tt["bb"], tg) for x in nx for tt in try_edges(cf, [x.dest["l"]]) for tg in tt["err"]]
+            oka, hit = unreachable_without(cf, trues, removed_edges=none_edges)
+            its = [arg_origins(x, 0) for x in nx]
+            ctx.require(rid, oka and bool(trues) and bool(none_edges) and all(i.has_leaf("param:2") and not shrinkers_in(i) for i in its), "%s:%s" % (cf.file, cf.line),
+                        "check_files answers true only after every listed file was tested", ["check_files", "all-files"])
+        else:
+            # (a) closure form: the result is Iterator::all(..) of this closure over the whole parameter
+            users = closure_users(cf, fb.key)
+            retp = origins(cf, {"l": 0, "p": []})
+            good = len(users) == 1 and users[0].name.rsplit("::", 1)[-1] == "all" and any(x.bb == users[0].bb for x in retp.calls) and "unop:Not" not in retp.via
+            recv = arg_origins(users[0], 0) if users else None
+            good = good and recv is not None and recv.has_leaf("param:2") and not shrinkers_in(recv)
+            okt, hit = unreachable_without(fb, trues, removed_edges=t_e)
+            ctx.require(rid, good and okt, "%s:%s" % (cf.file, cf.line), "check_files answers true only after every listed file was tested", ["check_files", "all-files"])
